@@ -504,10 +504,16 @@ def property_dependency_check(prop):
     if dep is None:
         return
 
-    # The dependency names a sibling Property; Section.__getitem__ only searches sub-Sections.
-    try:
-        dep_obj = prop.parent.properties[dep]
-    except KeyError:
+    # The dependency names a sibling Property; Section.__getitem__ only searches sub-Sections
+    # and the list of Properties takes a dependency that is a number (YAML 'dependency: 1'
+    # or 'dependency: true') for a position in the list, not for a name.
+    dep_obj = None
+    for sibling in prop.parent.properties:
+        if sibling.name == dep or sibling == dep:
+            dep_obj = sibling
+            break
+
+    if dep_obj is None:
         msg = "Property refers to a non-existent dependency object"
         yield ValidationError(prop, msg, LABEL_WARNING, validation_id)
         return
